@@ -41,4 +41,46 @@ for what in ('st', 'ind', 'toks'):
     rej = re.search(r'"REJECTED",\s*\{\s*\d+\s*\}', r.stdout) is not None
     print('trace with corrupted %s rejected: %s' % (what, rej))
     ok &= rej
+# (3) recorded dumps of the repository's tests: accepted as recorded; with one
+#     attribute value of one recorded object changed, or two attributes of one
+#     object swapped, the text no longer matches what the specification writes
+import common  # noqa
+import trace_dump  # noqa
+
+
+def run_dump(corrupt):
+    V = common.Verdict('C06', 'quick')
+    V.replay_dir = os.path.join(BUILD, 'selftest-replay')
+    os.makedirs(V.replay_dir, exist_ok=True)
+    import contextlib
+    import io
+    with contextlib.redirect_stdout(io.StringIO()):
+        trace_dump.validate(V, 'quick', corrupt=corrupt)
+    return len(V.violations)
+
+
+def change_value(recs):
+    for r in recs:
+        for o in r['oh']:
+            if o['k'] == 'int':
+                o['v'] = str(int(o['v']) + 1)
+                return
+
+
+def swap_fields(recs):
+    for r in recs:
+        for o in r['oh']:
+            if o['k'] == 'obj' and len(o['f']) >= 2 and o['f'][0] != o['f'][1]:
+                o['f'][0], o['f'][1] = o['f'][1], o['f'][0]
+                return
+
+
+n0 = run_dump(None)
+print('untouched recorded dumps accepted:', n0 == 0)
+ok &= n0 == 0
+for name, fn in (('changed value', change_value), ('swapped attributes',
+                                                   swap_fields)):
+    n = run_dump(fn)
+    print('recorded dump with %s rejected: %s' % (name, n > 0))
+    ok &= n > 0
 sys.exit(0 if ok else 1)
